@@ -63,6 +63,47 @@ def digest(app):
     sc = app._bptk.get_scenario(SM[0], "base")
     return (d, dict(sc.constants), len(DESTROYED))
 
+import os, sys, time
+
+def isolated(fn, *args, **kw):
+    """run fn in a forked child and return its (pickled) result: process-wide state a run leaves behind (class
+    attributes, module globals) must not leak from the interleaved run into the solo runs it is compared with"""
+    import pickle, select, signal
+    r, w = os.pipe()
+    sys.stdout.flush()
+    pid = os.fork()
+    if pid == 0:
+        try:
+            os.close(r)
+            try:
+                res = ("ok", fn(*args, **kw))
+            except BaseException as e:
+                res = ("err", "%s: %s" % (type(e).__name__, e))
+            with os.fdopen(w, "wb") as f:
+                pickle.dump(res, f)
+        finally:
+            os._exit(0)
+    os.close(w)
+    data = b""
+    deadline = time.time() + 300
+    with os.fdopen(r, "rb") as f:
+        while True:
+            left = deadline - time.time()
+            if left <= 0 or not select.select([f], [], [], left)[0]:
+                os.kill(pid, signal.SIGKILL)
+                os.waitpid(pid, 0)
+                raise RuntimeError("isolated run did not finish in 300 s")
+            chunk = os.read(f.fileno(), 1 << 16)
+            if not chunk:
+                break
+            data += chunk
+    os.waitpid(pid, 0)
+    kind, val = pickle.loads(data)
+    if kind == "err":
+        raise RuntimeError(val)
+    return val
+
+
 import os, shutil, tempfile, copy
 from BPTK_Py.externalstateadapter import FileAdapter
 
@@ -100,7 +141,12 @@ def snapshot(app, client, u):
     r1 = client.get("/%s/session-results" % u)
     r2 = client.get("/%s/flat-session-results" % u)
     keep = {k: ss[k] for k in ss if k != "lock"}
-    return norm(dict(state=keep, results=json.loads(r1.data), flat=json.loads(r2.data)))
+    def body(r):
+        try:
+            return json.loads(r.data) if r.status_code == 200 else {"HTTP status": r.status_code}
+        except ValueError:
+            return {"HTTP status": r.status_code, "body": "not JSON"}
+    return norm(dict(state=keep, results=body(r1), flat=body(r2)))
 
 def run_c19(case):
     """case: dict(compress, kinds=[...per step...], mode='evict'|'server', manager='sm'|'2024', runspec=[start, stop, dt])"""
@@ -147,66 +193,94 @@ def run_c19(case):
     finally:
         shutil.rmtree(d, ignore_errors=True)
 
+def _c20_begin2():
+    return {"scenario_managers": ["sm"], "scenarios": ["base"], "equations": ["s"]}
+
+def _c20_prehistory(case, cl, uu):
+    # an earlier session of the same instance with other equations, m steps long, saved at the same clock positions
+    if case.get("resession"):
+        for _ in range(int(case["resession"])):
+            step_req(cl, uu, "1.0" if case["compress"] else "none")
+        cl.post("/%s/begin-session" % uu, json=_c20_begin2())
+
+def _c20_setup(case):
+    SM[0] = "sm"
+    RUNSPEC[:] = case.get("runspec", [1.0, 10.0, 1.0])
+
+def _c20_reference(case, d_ref):
+    """the uninterrupted session: every request answered by one server process"""
+    _c20_setup(case)
+    ref = make_app(fake_clock=True, adapter=FileAdapter(case["compress"], d_ref))
+    rc = ref.test_client()
+    ur = start(rc, timeout={"hours": 5}); begin(rc, ur)
+    _c20_prehistory(case, rc, ur)
+    ref_out = []
+    for kind in case["kinds"]:
+        r = step_req(rc, ur, kind); ref_out.append((r.status_code, norm(json.loads(r.data))))
+    return ref_out
+
+def _c20_before_crash(case, d):
+    """the server process that is lost after request crash_at; only the external state in d survives it"""
+    _c20_setup(case)
+    app = make_app(fake_clock=True, adapter=FileAdapter(case["compress"], d))
+    c = app.test_client()
+    u = start(c, timeout={"hours": 5}); begin(c, u)
+    others = []
+    for _ in range(case.get("neighbours", 0)):
+        o = start(c, timeout={"hours": 5}); begin(c, o); step_req(c, o, "none" if not case["compress"] else "1.0"); others.append(o)
+    _c20_prehistory(case, c, u)
+    for kind in case["kinds"][:case["crash_at"]]:
+        step_req(c, u, kind)
+    return u, others
+
+def _c20_after_crash(case, d, u, others, ref_out):
+    """a new server process on the same external state"""
+    _c20_setup(case)
+    k = case["crash_at"]
+    try:
+        app2 = make_app(fake_clock=True, adapter=FileAdapter(case["compress"], d))
+    except Exception as e:
+        return "a new server on the same external state does not start: %s: %s" % (type(e).__name__, e)
+    c2 = app2.test_client()
+    for o in others:
+        r = c2.get("/%s/session-results" % o)
+        if r.status_code != 200:
+            return "a neighbouring instance was not restored (%d)" % r.status_code
+    if case.get("torn") is not None:
+        return None                                # a damaged file may cost that one instance
+    if k == 0:
+        return None                                # nothing had been externalised yet
+    out = []
+    for kind in case["kinds"][k:]:
+        r = step_req(c2, u, kind)
+        try:
+            out.append((r.status_code, norm(json.loads(r.data))))
+        except Exception:
+            out.append((r.status_code, None))
+    if out != ref_out[k:]:
+        for i, (a, b) in enumerate(zip(out, ref_out[k:])):
+            if a != b:
+                return "after a crash behind request %d, request %d answers %s, an uninterrupted session answers %s" % (k, k + i + 1, str(a)[:160], str(b)[:160])
+    return None
+
 def run_c20(case):
-    """case: dict(compress, kinds=[...], crash_at=k, torn=None|fraction, neighbours=0|1)"""
+    """case: dict(compress, kinds=[...], crash_at=k, torn=None|fraction, neighbours=0|1).  The three server processes of a
+    case (reference, before the crash, after the crash) are forked children of the harness: whatever the first keeps in
+    process memory (module globals, class attributes) is really gone when the third one starts."""
     d = tempfile.mkdtemp()
     d_ref = tempfile.mkdtemp()
     try:
-        # uninterrupted reference
-        ref = make_app(fake_clock=True, adapter=FileAdapter(case["compress"], d_ref))
-        rc = ref.test_client()
-        ur = start(rc, timeout={"hours": 5}); begin(rc, ur)
-        ref_out = []
-        for kind in case["kinds"]:
-            r = step_req(rc, ur, kind); ref_out.append((r.status_code, norm(json.loads(r.data))))
-        app = make_app(fake_clock=True, adapter=FileAdapter(case["compress"], d))
-        c = app.test_client()
-        u = start(c, timeout={"hours": 5}); begin(c, u)
-        others = []
-        for _ in range(case.get("neighbours", 0)):
-            o = start(c, timeout={"hours": 5}); begin(c, o); step_req(c, o, "none" if not case["compress"] else "1.0"); others.append(o)
-        k = case["crash_at"]
-        if case.get("resession"):
-            # an earlier, longer session of the same instance (its state file is bigger than the next one)
-            for _ in range(6):
-                step_req(c, u, "1.0" if case["compress"] else "none")
-            c.post("/%s/end-session" % u); begin(c, u)
-        for kind in case["kinds"][:k]:
-            step_req(c, u, kind)
-        del app, c                                      # the process is lost
+        ref_out = isolated(_c20_reference, case, d_ref)
+        u, others = isolated(_c20_before_crash, case, d)
         path = os.path.join(d, u + ".json")
         if case.get("torn") is not None and os.path.exists(path):
             data = open(path).read()
             open(path, "w").write(data[: int(len(data) * case["torn"])])
-        try:
-            app2 = make_app(fake_clock=True, adapter=FileAdapter(case["compress"], d))
-        except Exception as e:
-            return "a new server on the same external state does not start: %s: %s" % (type(e).__name__, e)
-        c2 = app2.test_client()
-        for o in others:
-            r = c2.get("/%s/session-results" % o)
-            if r.status_code != 200:
-                return "a neighbouring instance was not restored (%d)" % r.status_code
-        if case.get("torn") is not None:
-            return None                                # a damaged file may cost that one instance
-        if k == 0:
-            return None                                # nothing had been externalised yet
-        out = []
-        for kind in case["kinds"][k:]:
-            r = step_req(c2, u, kind)
-            try:
-                out.append((r.status_code, norm(json.loads(r.data))))
-            except Exception:
-                out.append((r.status_code, None))
-        if out != ref_out[k:]:
-            for i, (a, b) in enumerate(zip(out, ref_out[k:])):
-                if a != b:
-                    return "after a crash behind request %d, request %d answers %s, an uninterrupted session answers %s" % (k, k + i + 1, str(a)[:160], str(b)[:160])
-        return None
+        return isolated(_c20_after_crash, case, d, u, others, ref_out)
     finally:
         shutil.rmtree(d, ignore_errors=True); shutil.rmtree(d_ref, ignore_errors=True)
 
-case = {'compress': False, 'kinds': ['empty', '1.0', 'none', 'multi1.0'], 'mode': 'evict', 'runspec': [0.5, 9.5, 1.0]}
+case = {'compress': True, 'kinds': ['2.0', 'multi2.0', 'multi2.0', '3.0'], 'mode': 'server', 'manager': '2024', 'resession': ['7.0', 'multi7.0', 'multi7.0', '7.0']}
 bad = run_c19(case)
 print("case:", case)
 print("FAIL: " + bad if bad else "PASS")
